@@ -742,3 +742,12 @@ Proof.
   simpl. destruct (get N.eqb (d_dig d) (o_blobs (oc_store (oconf_run (oconf_init progs) sched)))) as [c|] eqn:E; [|discriminate].
   intro X. injection X as <- _. apply (H _ _ E).
 Qed.
+
+(* known finding oci-racing-pushes-all-succeed, on the model: a schedule after which both
+   goroutines have passed the stat check and renamed their temp file onto the blob path --
+   both Push calls return nil, whereas in every sequential order the second is refused *)
+Definition orace_progs : list (list op) := [[Push ex_layer (ox_B 2)]; [Push ex_layer (ox_B 2)]].
+Lemma orace_both_renamed :
+  map ot_pc (oc_threads (oconf_run (oconf_init orace_progs) [0; 1; 0; 1]%nat)) = [OPush3 ex_layer; OPush3 ex_layer] /\
+  snd (run oci_step oci_init (concat orace_progs)) = [OOk; OErr EAlreadyExists].
+Proof. vm_compute. split; reflexivity. Qed.
